@@ -60,8 +60,24 @@ def observer(got, pred, sp, call, sg, prog, ctx, part):
                    own=part['_own'], prefixes=part['_prefixes'])
 
     claims = {}
-    for traversal in ('recursive', 'iterative', 'children-first'):
-        if traversal == 'children-first':
+    for traversal in ('recursive', 'iterative', 'children-first', 'variables-first'):
+        if traversal == 'variables-first':
+            # other queries come first (repr(problem), .variables, constraint.get_variables() all collect variables):
+            # whatever they memoise on the nodes and on their vector operands must not change the classification
+            objs = progjudge.build_base(ctx)
+            nb = len(ctx.base_calls)
+            e = None
+            for i, c in enumerate(ctx.cur_calls):
+                e = apiexec.execute(c, objs)
+                objs[nb + i + 1] = e
+            for o in list(objs.values()):
+                if hasattr(o, 'get_variables'):
+                    try:
+                        o.get_variables()
+                        repr(o)
+                    except Exception:
+                        pass
+        elif traversal == 'children-first':
             # every intermediate object is classified before its parent: per-node cached answers feed the parent
             objs = progjudge.build_base(ctx)
             nb = len(ctx.base_calls)
@@ -124,6 +140,9 @@ def observer(got, pred, sp, call, sg, prog, ctx, part):
 
 def run(report, tier):
     apirun.run_config(report, 'MC_C04', observer=observer, report_kinds=('S',))
+    if tier == 'thorough':      # one call deeper over a reduced alphabet
+        apirun.run_config(report, 'MC_C04', observer=observer, report_kinds=('S',), tag='deep',
+                          overrides={'MaxCalls': 3, 'ScalarLits': '<-MC_ScalarLitsSmall', 'SOps': '<-MC_SOpsSmall', 'VOps': '<-MC_SOpsSmall'})
     return report.finish(
         rule='every Api program of <= MaxCalls calls over the C04 signature with a scalar result: compute_degree, .degree (twice), '
              'is_linear, is_quadratic on the recursive and the forced-iterative traversal (fresh objects) against the exact total '
